@@ -53,7 +53,7 @@ Judge(sn, e, wf, o, lits) ==
   ELSE IF e.out = "error" THEN (IF o.cls = "tree" THEN <<"rejected-valid", "", "tree">> ELSE NoFail)
   ELSE LET f == TreeFaults(sn, e, lits, o.cls) IN
        IF o.cls = "error" THEN (IF f # NoFail THEN f ELSE <<"accepted-invalid", "", "error">>)
-       ELSE IF o.cls \in {"tree", "either"} /\ ~SameTree(sn, e.tree, o.t) THEN (IF f # NoFail THEN f ELSE <<"wrong-tree", "", o.cls>>)
+       ELSE IF o.cls \in {"tree", "either"} /\ ~SameTree(sn, e.tree, o.t) THEN (IF f # NoFail THEN f ELSE <<"wrong-tree", TreeDiff(sn, e.tree, o.t), o.cls>>)
        ELSE f
 DecodeFault(sn, e) ==
   IF ~e.hastoks
@@ -91,7 +91,7 @@ TStep ==
          df == IF ef[1] \in {"panic", "ill-formed-output"} THEN NoFail ELSE DecodeFault(sn, e)
          \* the property itself: a correctly encoded tree decodes to the same tree
          rf == IF e.ev = "rt" /\ ef = NoFail /\ df = NoFail /\ ~(e.out = "tree" /\ SameTree(sn, e.tree, e.t))
-               THEN <<"round-trip", "", "tree">> ELSE NoFail
+               THEN <<"round-trip", TreeDiff(sn, e.tree, e.t), "tree">> ELSE NoFail
          fs == (IF ef # NoFail THEN <<Failure(e, "encode", ef[1], ef[2], ef[3])>> ELSE << >>)
                \o (IF df # NoFail THEN <<Failure(e, "decode", df[1], df[2], df[3])>> ELSE << >>)
                \o (IF rf # NoFail THEN <<Failure(e, "decode", rf[1], rf[2], rf[3])>> ELSE << >>)
